@@ -98,6 +98,8 @@ def assemble(unit, outdir):
             r = X.extract_fields(sp)
         elif kind == 'expr':
             r = X.extract_constant(sp)
+        elif kind == 'enum':
+            r = X.extract_enum(sp)
         else:
             # keep loop contracts on one line so that #line mapping stays exact
             if 'loops' in sp:
